@@ -143,6 +143,95 @@ def gen_mixed_batch(pyrng, nmax=10):
     return c
 
 
+# ----------------------------------------------------------------------------------------------- exact-arithmetic stream
+def _pow2(g):
+    return float(g.choice([1.0, -1.0, 2.0, -0.5, 4.0]))
+
+
+def gen_exact_case(pyrng):
+    """inputs on which every quantity of the run up to the breakdown is exactly representable in binary64 (small integers / dyadic
+    numbers, canonical or +-1/2-pattern start vectors, permutations, triangular operators, coordinate invariant subspaces, 1x1), so
+    that remainders are EXACTLY 0.0 at the breakdown and comparisons sit exactly on their boundaries: tol = 0, norm == tol/2,
+    norm == tol*reference, max_iters in {1, grade, grade+1, n-1, n, n+1, n+3}, n = 1"""
+    g = np.random.default_rng(pyrng.getrandbits(64))
+    fam = str(g.choice(["identity", "scalarmul", "diag_e", "diag4", "perm", "permdense", "triu", "blocktriu", "one", "one"]))
+    cplx = False
+    n = int(g.integers(2, 9))
+    c = dict(start="exact", family=fam)
+    first_norm, ref, grade = None, None, None      # exact remainder norm of step 1, exact ||A q_0||, steps to breakdown
+    if fam in ("identity", "scalarmul"):
+        n = int(g.choice([1, 2, 4, 5, 8]))
+        k4 = 4 if (n >= 4 and g.random() < 0.5) else 1
+        v = np.zeros(n); idx = g.choice(n, size=k4, replace=False); v[idx] = g.choice([-1.0, 1.0], k4) * abs(_pow2(g))
+        if fam == "identity":
+            c.update(kind="identity", parts=[])
+        else:
+            cplx = bool(g.random() < 0.4)
+            z = complex(float(g.choice([2, -3, 0.5, 4])), float(g.choice([0, 1, -2])) if cplx else 0.0)
+            c.update(kind="scalarmul", parts=[[z.real, z.imag]])
+        first_norm, grade = 0.0, 1
+    elif fam == "diag_e":
+        d = g.integers(-4, 5, n).astype(float)
+        v = np.zeros(n); v[int(g.integers(0, n))] = _pow2(g)
+        c.update(kind="diag", parts=[enc(d)]); first_norm, grade = 0.0, 1
+    elif fam == "diag4":
+        n = int(g.integers(4, 9))
+        m_, a_ = float(g.choice([0, 1, 3, -2])), float(g.choice([1, 2, 4]))
+        d = g.integers(-4, 5, n).astype(float)
+        idx = g.choice(n, size=4, replace=False)
+        d[idx] = [m_ + a_, m_ - a_, m_ + a_, m_ - a_]
+        v = np.zeros(n); v[idx] = abs(_pow2(g))
+        c.update(kind="diag", parts=[enc(d)]); first_norm, ref, grade = a_, float(np.hypot(m_, a_)), 2
+    elif fam in ("perm", "permdense"):
+        perm = g.permutation(n)
+        # length of the cycle through the start coordinate, for P[i, j] = [j == perm[i]]
+        j0 = int(g.integers(0, n)); L = 1; inv = np.argsort(perm); j = int(inv[j0])
+        while j != j0:
+            L += 1; j = int(inv[j])
+        v = np.zeros(n); v[j0] = _pow2(g)
+        if fam == "perm":
+            c.update(kind="perm", parts=[[int(x) for x in perm]]); sc = 1.0
+        else:
+            sc = float(g.choice([1.0, 2.0, -0.5])); c.update(kind="dense", parts=[enc(sc * np.eye(n)[perm])])
+        grade = L
+        first_norm, ref = (0.0, abs(sc)) if L == 1 else (abs(sc), abs(sc))
+    elif fam == "triu":
+        cplx = bool(g.random() < 0.4)
+        T = np.triu(g.integers(-3, 4, (n, n))).astype(complex)
+        if cplx:
+            T = T + 1j * np.triu(g.integers(-2, 3, (n, n)))
+        v = np.zeros(n, dtype=complex); v[0] = _pow2(g) * (1j if cplx and g.random() < 0.3 else 1.0)
+        c.update(kind="dense", parts=[enc(T)]); first_norm, grade = 0.0, 1
+    elif fam == "blocktriu":
+        n = int(g.integers(3, 9)); r = int(g.integers(2, min(n, 4) + 0))
+        r = min(r, n - 1)
+        T = g.integers(-3, 4, (n, n)).astype(float)
+        T[r:, :r] = 0
+        cyc = np.roll(np.arange(r), 1)                    # an r-cycle on the leading coordinates
+        T[:r, :r] = float(g.choice([1.0, 2.0])) * np.eye(r)[cyc]
+        v = np.zeros(n); v[0] = _pow2(g)
+        c.update(kind="dense", parts=[enc(T)]); grade = r
+        first_norm = ref = float(np.abs(T[:r, :r]).max())
+    else:   # 1x1
+        n = 1; cplx = bool(g.random() < 0.5)
+        a = complex(float(g.integers(-3, 4)), float(g.integers(-3, 4)) if cplx else 0.0)
+        v = np.array([_pow2(g) * (1j if cplx and g.random() < 0.3 else 1.0)])
+        c.update(kind="dense", parts=[enc(np.array([[a]]))]); first_norm, grade = 0.0, 1
+    if np.iscomplexobj(v) and np.abs(np.asarray(v).imag).max() > 0:
+        cplx = True
+    tols = [0.0, 0.0, 0.0, 1e-300, 1e-7, 1.0, 2.0]
+    if first_norm:
+        tols += [2.0 * first_norm, 2.0 * first_norm]            # remainder norm == tol/2 exactly
+    if first_norm and ref:
+        tols += [first_norm / ref]                              # remainder norm == tol * ||A q_0|| (exact when the quotient is dyadic)
+    mis = [1, 2, max(1, grade - 1), grade, grade + 1, max(1, n - 1), n, n + 1, n + 3]
+    batch = 0 if g.random() < 0.8 else 2
+    V = np.stack([v, -2.0 * np.asarray(v)][:max(batch, 1)], 0)
+    c.update(cplx=cplx, n=n, batch=batch, grades=[grade] * max(batch, 1), v=enc(V), max_iters=int(g.choice(mis)), tol=float(g.choice(tols)),
+             entry=str(g.choice(["arnoldi", "arnoldi", "Arnoldi()"])) if batch == 0 else "arnoldi")
+    return c
+
+
 def coq_elem_cases(c, obs, capped=False, rfix=False, cfix=False):
     """one single-start Coq case per batch element (element b of the batched call against the run on v_b alone)"""
     S = dense_of(c)
@@ -190,6 +279,10 @@ def dense_of(c):
         S = p[1] * dec(p[0])
     elif k == "identity":
         S = np.eye(c["n"], dtype=complex)
+    elif k == "scalarmul":
+        S = complex(*p[0]) * np.eye(c["n"], dtype=complex)
+    elif k == "perm":
+        S = np.eye(c["n"], dtype=complex)[list(p[0])]          # (P x)_i = x[perm[i]]
     else:
         S = dec(p[0])
     return S if c["cplx"] else S.real
@@ -211,6 +304,11 @@ def build_op(c):
         return p[1] * ops.Dense(cast(p[0]))
     if k == "identity":
         return ops.Identity((c["n"], c["n"]), dt)
+    if k == "scalarmul":
+        z = complex(*p[0])
+        return ops.ScalarMul(z if c["cplx"] else z.real, (c["n"], c["n"]), dt)
+    if k == "perm":
+        return ops.Permutation(np.array(p[0], dtype=np.int64), dt)
     if k == "matmat":
         S = cast(p[0])
         return ops.LinearOperator(dt, (c["n"], c["n"]), matmat=lambda X, S=S: S @ X)
